@@ -101,7 +101,7 @@ def main(run: core.Run) -> None:
                 fid = R.known_in_stream(meta, open_ids)
                 if not fid and "C09-N3" in open_ids and R.classify_c09n3(m, d):
                     fid = "C09-N3"
-                if not fid and "C04-D7" in open_ids and api in ("optimize", "rewrite") and R.classify_c04d7(m, d, run.rng, meta["init_inputs"]):
+                if not fid and "C04-D7" in open_ids and api in ("optimize", "rewrite") and R.classify_c04d7(m, api, opts, d, run.rng, meta["init_inputs"]):
                     fid = "C04-D7"
                 if not fid and "C04-D4" in open_ids and R.classify_c04d4(m, api, opts, d, run.rng, meta["init_inputs"]):
                     fid = "C04-D4"
